@@ -329,7 +329,8 @@ class AsyncFIXConnection:
                     await self._process_message(decoded_msg, raw_msg)
             except asyncio.CancelledError:
                 return
-            except ConnectionError as why:
+            except OSError as why:
+                # ConnectionError and any other transport error (e.g. TimeoutError)
                 self.log.debug(
                     "socket_read_task: connection has been closed %s" % (why,)
                 )
